@@ -217,11 +217,11 @@ def norm_tree(tree):
     return strict, loose
 
 
-def parse_one(XSH, src, ns):
+def parse_one(XSH, src, ns, mode="exec"):
     ex = XSH.execer
     del _EVENTS[:]
     try:
-        tree = ex.parse(src, ctx=set(ns) | set(dir(builtins)), mode="exec", filename="<verif-c03>")
+        tree = ex.parse(src, ctx=set(ns) | set(dir(builtins)), mode=mode, filename="<verif-c03>")
         return (norm_tree(tree) if tree is not None else ("None", "None")), ""
     except SyntaxError:
         return None, "SyntaxError"
@@ -251,7 +251,7 @@ def fresh_ns():
     return {"pv": "p v*", "_cm": _cm}
 
 
-def execute(ctx, src, shape):
+def execute(ctx, src, shape, mode="exec"):
     XSH, state, wd = ctx["XSH"], ctx["state"], ctx["wd"]
     for f in os.listdir(wd):
         p = os.path.join(wd, f)
@@ -269,7 +269,7 @@ def execute(ctx, src, shape):
     del _EVENTS[:]
     signal.setitimer(signal.ITIMER_REAL, 60)
     try:
-        XSH.execer.exec(src, glbs=ns, locs=ns, filename="<verif-c03>")
+        XSH.execer.exec(src, mode=mode, glbs=ns, locs=ns, filename="<verif-c03>")
     except Timeout:
         exc = "TIMEOUT"
     except SyntaxError:
@@ -309,9 +309,10 @@ def run_equiv(ctx, scn):
     XSH = ctx["XSH"]
     shape = scn["shape"]
     bare, expl = render(shape, False), render(shape, True)
+    mode = scn.get("mode", "exec")  # "single" is how the interactive prompt compiles a line
     ns = fresh_ns()
-    tb, eb = parse_one(XSH, bare, ns)
-    te, ee = parse_one(XSH, expl, ns)
+    tb, eb = parse_one(XSH, bare, ns, mode)
+    te, ee = parse_one(XSH, expl, ns, mode)
     obs = {"bare_err": eb, "expl_err": ee, "flagsame": True}
     if eb and ee:
         # neither text is a program (both rejected the same way): nothing to compare
@@ -321,13 +322,13 @@ def run_equiv(ctx, scn):
         # the only difference, if any: which operands of the chain carry the in_boolop marker
         obs["flagsame"] = tb[0] == te[0]
     else:
-        rb = execute(ctx, bare, shape)
-        re_ = execute(ctx, expl, shape)
+        rb = execute(ctx, bare, shape, mode)
+        re_ = execute(ctx, expl, shape, mode)
         obs["verdict"] = "same-run" if rb == re_ else "differs"
         if rb != re_:
             obs["bare_run"], obs["expl_run"] = rb, re_
     obs["same"] = obs["verdict"] != "differs"
-    return {"shape": shape, "bare": bare, "explicit": expl, "steps": [{"cmd": "judge", "obs": obs}]}
+    return {"shape": shape, "mode": mode, "bare": bare, "explicit": expl, "steps": [{"cmd": "judge", "obs": obs}]}
 
 
 def run_term(ctx, scn):
@@ -354,7 +355,7 @@ def run_term(ctx, scn):
         signal.setitimer(signal.ITIMER_REAL, 0)
     wall = time.time() - t0
     evs = [
-        {"retries": int(e["retries"]), "greedy": bool(e["greedy"]), "logical": bool(e["logical"]), "eline": int(e["err_line"]), "ecol": int(e["err_col"]), "nlines": int(e["nlines"])}
+        {"retries": int(e["retries"]), "greedy": bool(e["greedy"]), "logical": bool(e["logical"]), "eline": int(e["err_line"]), "ecol": int(e["err_col"]), "nlines": int(e["nlines"]), "length": int(e.get("length", 0))}
         for e in events[:400]
     ]
     steps = [dict(cmd="iter", **e) for e in evs] + [{"cmd": "end", "how": end}]
